@@ -129,6 +129,21 @@ def oracle(res, g, lines, pend):
             worst = max(worst, float(np.max(np.abs(got[m] - want[m])) / max(1e-300, np.max(np.abs(want[m])))))
     if worst > 1e-9:
         bad.append(("shifttorsion", "ShiftTorsion differs from the centred x-difference of dphidy by %.3g" % worst))
+    # at the x-faces: the difference of dphidy between the neighbouring cell centres over their psi difference
+    stx = v.get("ShiftTorsion_xlow")
+    if stx is not None:
+        if not np.isfinite(stx).all():
+            bad.append(("shifttorsion-xlow-nonfinite", "ShiftTorsion_xlow has %d non-finite values of %d" % (int((~np.isfinite(stx)).sum()), stx.size)))
+        else:
+            dpc, px = v["dphidy"], v["psixy"]
+            want = (dpc[1:, :] - dpc[:-1, :]) / (px[1:, :] - px[:-1, :])
+            got = stx[1:, :]
+            e = float(np.nanmax(np.abs(got - want)) / max(1e-300, np.nanmax(np.abs(want))))
+            if e > 1e-6:
+                bad.append(("shifttorsion-xlow", "ShiftTorsion_xlow differs from the x-difference of dphidy between neighbouring centres by %.3g (relative)" % e))
+        dxx = v.get("dx_xlow")
+        if dxx is not None and (dxx[1:, :] == 0).any():
+            bad.append(("dx-xlow-zero", "dx_xlow is zero at %d interior x-faces" % int((dxx[1:, :] == 0).sum())))
     if g["spec"].get("case") == "circular":
         # ShiftAngle = 2 pi q(r) up to the chord error of the FineContour (and the trapezoid rule)
         q = g["spec"]["options"].get("q_coefficients", None)
